@@ -23,10 +23,15 @@ What is proved here
                                   value, also after a second removal of the first key
   * `C09_twin_unfixed_vs_fixed`   the same history, both variants side by side
 
-NOT proved (left open, see INTEGRATE.md of f-stale): the global invariant "no stale entry" (every
-entry of every table resolves to a live slot of a key with that partial key) for all reachable
-states of the fixed model, and with it `PhysCol.Inv.live` of Pdb/Proofs/C20Walk.lean for reachable
-states.
+PROVED SINCE (Pdb/Props/C09NoStale.lean, f-nostale): the global invariant "no stale entry" for all
+reachable states of the fixed model - `NoStale_run`: every entry of every table (current and queued,
+whole tables) points to a live slot whose stored tail continues the recovered key bits, all entries
+of a slot agree on key bits 63..14, one entry per slot and table - WITHOUT A-tail; with it the read
+theorem `C09_lookup_latest_notail`, `C14_no_misattribution_nostale`, and for the index walk of C20
+`PhysCol.InvN` (live, nodup, one slot per key) of `physOf s` for reachable states:
+`C20_walk_exact_notail` (Pdb/Props/C20NoStale.lean).  The dump checker `t2 nostale`
+(`checkNoStale`, sound by `T2_checkNoStale_sound`) evaluates `NoStale` on every structural dump of
+the real crate.
 -/
 import Pdb.Props.C09F24
 
